@@ -824,7 +824,8 @@ theorem exF_mpU : marshalUnprotected exF.h = .ok [0xa1, 0x04, 0x42, 0x31, 0x31] 
   simp [marshalUnprotected, exF, GoVal.modelledPairs, GoVal.modelled, encodeBucket, encCfg,
     validateHeaderParameters, validateLoop, normalizeLabel, wrap64, checkParam, lbl, canBstr,
     encodePairs, encodeAny, encInt, encHead, encBstr, HW.shortest, headBytes, sortPairs,
-    concatPairs]
+    concatPairs, wellformedNoTags, parseTop, fuelFor, parseItem, parsePairs, parseHead,
+    maxNested, maxElems]
 
 theorem exF_sign : (Sign1.sign exF none exS7).out = .ok () ∧
     (Sign1.sign exF none exS7).state =
